@@ -70,4 +70,52 @@ theorem find_reverse_last (p : Bytes → Bool) (l : List Bytes) (x : Bytes) (h :
     have := hno y (List.mem_reverse.mp hy)
     simpa using this
 
+/-- the result code `"ok"` is PreCheckBlock's success only -/
+theorem preErr_code_ok {e : PreErr} (h : e.code = "ok") : e = .ok := by
+  cases e <;> first | rfl | (exact absurd h (by decide))
+
+/-- the result code `"ok"` is PostCheckBlock's success only -/
+theorem postErr_code_ok {e : PostErr} (h : e.code = "ok") : e = .ok := by
+  cases e with
+  | tx es =>
+    exfalso
+    simp only [PostErr.code] at h
+    have := congrArg String.length h
+    rw [String.length_append] at this
+    have h3 : ("tx:" : String).length = 3 := by decide
+    have h2 : ("ok" : String).length = 2 := by decide
+    omega
+  | ok => rfl
+  | _ => exact absurd h (by decide)
+
+/-- an int32 is at least -2^31 -/
+theorem signedVersion_ge (ver : Nat) : signedVersion ver ≥ -2^31 := by
+  unfold signedVersion
+  dsimp only
+  split <;> omega
+
+/-- the version-gating disjunction of PreCheckBlock, as a proposition -/
+theorem versionRejected_false_iff (c : Consensus) (ver height : Nat) : versionRejected c ver height = false ↔
+    ¬ (signedVersion ver < 2 ∧ height ≥ c.bip34Height) ∧ ¬ (signedVersion ver < 3 ∧ height ≥ c.bip66Height) ∧
+    ¬ (signedVersion ver < 4 ∧ height ≥ c.bip65Height) := by
+  have e1 : (minVersion_BIP34Height : Int) = 2 := by decide
+  have e2 : (minVersion_BIP66Height : Int) = 3 := by decide
+  have e3 : (minVersion_BIP65Height : Int) = 4 := by decide
+  simp only [versionRejected, Bool.or_eq_false_iff, Bool.and_eq_false_iff, decide_eq_false_iff_not, e1, e2, e3]
+  constructor
+  · rintro ⟨⟨a, b⟩, d⟩
+    exact ⟨fun h => by rcases a with a | a; exact a h.1; exact a h.2, fun h => by rcases b with b | b; exact b h.1; exact b h.2,
+           fun h => by rcases d with d | d; exact d h.1; exact d h.2⟩
+  · rintro ⟨a, b, d⟩
+    refine ⟨⟨?_, ?_⟩, ?_⟩
+    · by_cases h : signedVersion ver < 2
+      · right; exact fun g => a ⟨h, g⟩
+      · left; exact h
+    · by_cases h : signedVersion ver < 3
+      · right; exact fun g => b ⟨h, g⟩
+      · left; exact h
+    · by_cases h : signedVersion ver < 4
+      · right; exact fun g => d ⟨h, g⟩
+      · left; exact h
+
 end GocoinV.Proofs.C05
